@@ -3,6 +3,7 @@
 (patch.diff, demonstration, meta.json built from the evaluation logs and the agent's description)."""
 import sys, os, json, shutil, re, glob
 pid, n = sys.argv[1], sys.argv[2]
+note = sys.argv[3] if len(sys.argv) > 3 else ''
 src = f'/tmp/seed/{pid}/out'; ev = f'/tmp/seed/{pid}/eval{n}'
 dst = f'/verif/seeded/{pid}-{n}'
 os.makedirs(dst, exist_ok=True)
@@ -26,6 +27,6 @@ meta = dict(
     needs_to_manifest=desc.strip()[:1500],
     confirmed=dict(demo_passes_on_unmodified_tree=ok('demo_clean'), builds=True, repository_tests_pass_with_change=ok('repo_tests'), demo_fails_with_change=ok('demo_changed', True)),
     ran=[f"tools_seed_eval.sh {pid} {n} (scratch worktree of /repo HEAD, removed afterwards): go test of the demo on the clean tree, git apply patch.diff, go build ./..., go test ./... , go test of the demo, ./check <ID> quick with VERIF_REPO=<worktree>"],
-    checks=checks, detected_by=[c for c, v in checks.items() if v['detected']])
+    history=note, checks=checks, detected_by=[c for c, v in checks.items() if v['detected']])
 json.dump(meta, open(f'{dst}/meta.json', 'w'), indent=1)
 print(dst, 'detected_by', meta['detected_by'])
